@@ -50,7 +50,7 @@ import ast
 from typing import Dict, Iterable, Iterator, List, Optional, Set, Tuple
 
 from .cfg import cfg_of, origins
-from .index import FuncNode, Module, Repo, enclosing_class, enclosing_function, norm, walk_local
+from .index import FuncNode, Module, Repo, enclosing_function, norm, walk_local
 
 MUTATORS = frozenset(
     [
